@@ -6,7 +6,7 @@ from __future__ import annotations
 import ast
 from typing import Dict, FrozenSet, List, Optional, Tuple
 
-from engine.src import FunctionInfo, own_nodes, own_nodes_incl_lambda, src_of
+from engine.src import FunctionInfo, own_nodes, own_nodes_incl_lambda, src_of, AnalysisError
 from engine.expand import Expander
 from engine.guards import PathConditions, path_conditions, cond_text, canon_cond, atoms
 from engine import norm
@@ -472,3 +472,20 @@ def same_selection(alts_list) -> bool:
     # arguments whose alternatives depend on branches the others do not have: every
     # one of their alternatives must be an alternative of the others on a compatible branch
     return True
+
+
+# ------------------------------------------------------------ path evaluation
+from engine.patheval import PathEval, Path, RAISE, text as ptext
+
+
+def paths(fi: FunctionInfo, bindings: Optional[Dict[str, object]] = None) -> List[Path]:
+    """every path through a small function with its facts, returned value and
+    stores (engine.patheval); bindings: parameter -> python constant or ast"""
+    b = {}
+    for k, v in (bindings or {}).items():
+        b[k] = v if isinstance(v, ast.AST) else ast.Constant(v)
+    pe = PathEval(fi.node, b, post=complement_norm)
+    out = pe.run()
+    if pe.truncated:
+        raise AnalysisError(f"too many paths through {fi.qualname}")
+    return out
